@@ -36,6 +36,9 @@ type arg struct {
 	id    int // unique per call
 	bctx  int // which batching context the call used
 	shard int // value the shard function maps it to (-1 without shard function)
+	// badShard: the Func's Shard callback panics for this argument (user code,
+	// like Many); the panic is the caller's, everybody else carries on
+	badShard bool
 }
 
 func f(a arg) int { return a.id*1000 + 7 }
@@ -61,6 +64,7 @@ type invokeRec struct {
 	start     uint64
 	end       uint64
 	ownCancel bool // this call's own context (or its root) was cancelled before it returned
+	panicked  bool // Invoke panicked (in the Shard callback)
 }
 
 type batchWorld struct {
@@ -203,6 +207,10 @@ func batchBody(c *runner.Ctx) {
 		bf.Many = w.many(shardMod)
 		if shardMod > 0 {
 			bf.Shard = func(x interface{}) interface{} {
+				if x.(arg).badShard {
+					w.c.Fault("batch-shard-panic")
+					panic("shard-boom")
+				}
 				// arg.shard = value + 100*kind
 				if s := x.(arg).shard; s >= 100 {
 					return shardB(s - 100)
@@ -252,6 +260,9 @@ func batchBody(c *runner.Ctx) {
 				if typedShards && (nextID/shardMod)%2 == 1 {
 					a.shard += 100
 				}
+				if w.faulty && c.Biased(2, 930, "shard-panic") > 0 {
+					a.badShard = true
+				}
 			}
 			nextID++
 			r := &invokeRec{a: a}
@@ -281,7 +292,19 @@ func batchBody(c *runner.Ctx) {
 				}
 				r.start = simrt.Seq()
 				simrt.Logf("Invoke start arg=%v", r.a)
-				res, err := funcs[fi].Invoke(cctx, r.a)
+				var res interface{}
+				var err error
+				func() {
+					defer func() {
+						if p := recover(); p != nil {
+							if !r.a.badShard || fmt.Sprint(p) != "shard-boom" {
+								panic(p)
+							}
+							r.panicked = true
+						}
+					}()
+					res, err = funcs[fi].Invoke(cctx, r.a)
+				}()
 				r.res, r.err, r.done, r.end = res, err, true, simrt.Seq()
 				r.ownCancel = callerCancelled || rootCancelled[ci]
 				simrt.Logf("Invoke end arg=%v res=%v err=%v", r.a, res, err)
@@ -340,6 +363,13 @@ func batchBody(c *runner.Ctx) {
 			continue
 		}
 		mc := seen[r.a.id]
+		if r.panicked {
+			// the Shard callback's panic came out of Invoke: nothing was fetched
+			if mc != nil {
+				c.ViolateFor("C05", "fetched-despite-shard-panic", "Invoke(%v) panicked in the Shard callback but its argument was handed to Many", r.a)
+			}
+			continue
+		}
 		if r.err == nil {
 			switch {
 			case mc == nil:
@@ -381,7 +411,7 @@ func batchBody(c *runner.Ctx) {
 	}
 	if w.cancels == 0 {
 		for _, r := range w.invokes {
-			if r.done && seen[r.a.id] == nil {
+			if r.done && !r.panicked && seen[r.a.id] == nil {
 				c.ViolateFor("C05", "argument-never-fetched", "Invoke(%v) returned but its argument was never handed to Many although no context was cancelled", r.a)
 			}
 		}
